@@ -2,7 +2,7 @@
 
 use super::{Error, Lint, Note};
 use crate::ast::Ast;
-use crate::grammar::{attributes, Attributable, Entity};
+use crate::grammar::{attributes, Attributable, Contained, Entities, Entity};
 use crate::slice_file::{SliceFile, Span};
 use crate::slice_options::SliceOptions;
 
@@ -170,6 +170,38 @@ impl Diagnostics {
             allowed.any(|allow| is_lint_allowed_by(allow.allowed_lints.iter(), lint))
         }
 
+        // Helper function that checks whether a span lies within another span.
+        fn is_within(inner: &Span, outer: &Span) -> bool {
+            inner.file == outer.file && outer.start <= inner.start && inner.end <= outer.end
+        }
+
+        // Helper function that returns the innermost member of `entity` that the provided span lies within (or `entity`
+        // itself if there's no such member). A lint's scope is the scoped identifier of an entity, but that isn't always
+        // the entity closest to it: a parameter and a return member of an operation can share one scoped identifier, and
+        // types nested within a sequence, dictionary, or result are scoped to the container of their member.
+        fn innermost_entity_at<'b>(entity: &'b dyn Entity, span: &Span) -> &'b dyn Entity {
+            fn find_in<'b, T: Entity>(members: Vec<&'b T>, span: &Span) -> Option<&'b dyn Entity> {
+                let mut members = members.into_iter();
+                members.find(|member| is_within(span, member.span())).map(|member| member as &dyn Entity)
+            }
+
+            let inner = match entity.concrete_entity() {
+                Entities::Struct(struct_def) => find_in(struct_def.fields(), span),
+                Entities::Enum(enum_def) => find_in(enum_def.enumerators(), span),
+                Entities::Enumerator(enumerator) => find_in(enumerator.fields(), span),
+                Entities::Interface(interface) => find_in(interface.operations(), span),
+                Entities::Operation(operation) => {
+                    find_in(operation.parameters(), span).or_else(|| find_in(operation.return_members(), span))
+                }
+                // The other parameter (or return member) with this identifier may be the one that was meant.
+                Entities::Parameter(parameter) if find_in(vec![parameter], span).is_none() => {
+                    return innermost_entity_at(parameter.parent(), span);
+                }
+                _ => None,
+            };
+            inner.map_or(entity, |inner| innermost_entity_at(inner, span))
+        }
+
         for diagnostic in &mut self.0 {
             // If this diagnostic is a lint, update its diagnostic level. Errors always have a level of `Error`.
             if let DiagnosticKind::Lint(lint) = &diagnostic.kind {
@@ -191,7 +223,21 @@ impl Diagnostics {
 
                 // If the diagnostic has a scope, check if it's affected by an `allow` attribute in that scope.
                 if let Some(scope) = diagnostic.scope() {
-                    if let Ok(entity) = ast.find_element::<dyn Entity>(scope) {
+                    let entity = match ast.find_element::<dyn Entity>(scope) {
+                        Ok(entity) => Some(entity),
+                        // The types within a type alias are scoped to its module, which isn't an entity. The alias is then
+                        // the one in the diagnostic's file whose underlying type the diagnostic lies within.
+                        Err(_) => diagnostic.span().and_then(|span| {
+                            let file = files.iter().find(|f| f.relative_path == span.file)?;
+                            let mut definitions = file.contents.iter().map(|definition| definition.borrow());
+                            definitions.find(|definition| match definition.concrete_entity() {
+                                Entities::TypeAlias(type_alias) => is_within(span, &type_alias.underlying.span),
+                                _ => false,
+                            })
+                        }),
+                    };
+                    if let Some(entity) = entity {
+                        let entity = diagnostic.span().map_or(entity, |span| innermost_entity_at(entity, span));
                         if is_lint_allowed_by_attributes(entity, lint) {
                             diagnostic.level = DiagnosticLevel::Allowed;
                         }
